@@ -138,6 +138,10 @@ type zvars struct {
 	settled map[*ssa.Alloc]*settledInfo
 	// products by a positive constant seen so far (see the MUL transfer)
 	muls []zoneMul
+	// availRep: a load of a field path that this function also stores to -> an earlier load of
+	// the same path that dominates it with no store to that field and no call that may store to
+	// it on any way between the two (the two loads read the same value)
+	availRep map[*ssa.UnOp]*ssa.UnOp
 }
 
 type zoneMul struct {
@@ -470,6 +474,9 @@ func (a *zoneAnalyser) canon(v ssa.Value) (int, int64, bool) {
 			if fv := a.forwarded(x); fv != nil && isIntType(x.Type()) {
 				return a.canon(fv)
 			}
+			if rep := a.zv.availRep[x]; rep != nil && isIntType(x.Type()) {
+				return a.canon(rep)
+			}
 			if al, ok := x.X.(*ssa.Alloc); ok && isIntType(x.Type()) {
 				if si := a.zv.settledFor(al); si.ok && len(si.writers) > 0 {
 					all := true
@@ -599,6 +606,9 @@ func (a *zoneAnalyser) lenVar(v ssa.Value) int {
 			}
 			if fv := a.forwarded(x); fv != nil {
 				return a.lenVar(fv)
+			}
+			if rep := a.zv.availRep[x]; rep != nil {
+				return a.lenVar(rep)
 			}
 		}
 	case *ssa.FreeVar:
@@ -1599,6 +1609,7 @@ func ZoneAnalyse(fn *ssa.Function) *ZoneResult {
 			}
 		}
 	}
+	zv.availRep = availableLoads(fn, zv.stored)
 	// pre-register variables (so that all zones have the same dimension)
 	for _, prm := range fn.Params {
 		if isIntType(prm.Type()) {
@@ -2491,4 +2502,156 @@ func (r *ZoneResult) UpperConst(at ssa.Instruction, v ssa.Value) (int64, bool) {
 	}
 	_, h, _, okH := r.an.interval(z, v)
 	return h, okH
+}
+
+// availableLoads: for the field paths the function stores to, which loads read the same value as
+// an earlier load. L2 is represented by L1 when both load the same access path, L1 dominates L2,
+// and no instruction that may change the field (a store to that field through any base, a call
+// that may store to it) lies on a way from L1 to L2 that does not pass L1 again.
+func availableLoads(fn *ssa.Function, stored map[string]bool) map[*ssa.UnOp]*ssa.UnOp {
+	out := map[*ssa.UnOp]*ssa.UnOp{}
+	type ld struct {
+		u *ssa.UnOp
+		f *types.Var
+	}
+	byPath := map[string][]ld{}
+	var order []string
+	for _, b := range fn.DomPreorder() {
+		for _, in := range b.Instrs {
+			u, ok := in.(*ssa.UnOp)
+			if !ok || u.Op != token.MUL {
+				continue
+			}
+			fa, ok := u.X.(*ssa.FieldAddr)
+			if !ok {
+				continue
+			}
+			p, ok := pureAccessPath(u)
+			if !ok || !stored[p] {
+				continue
+			}
+			if _, seen := byPath[p]; !seen {
+				order = append(order, p)
+			}
+			byPath[p] = append(byPath[p], ld{u, FieldOfAddr(fa)})
+		}
+	}
+	if len(byPath) == 0 {
+		return out
+	}
+	mayKill := func(in ssa.Instruction, f *types.Var) bool {
+		switch x := in.(type) {
+		case *ssa.Store:
+			if fa, ok := x.Addr.(*ssa.FieldAddr); ok {
+				return SameField(FieldOfAddr(fa), f)
+			}
+			// a store through some other pointer: could alias the field only if the address of the
+			// field was taken; FieldAddr results used other than for load/store are rare: be careful
+			_, isAlloc := x.Addr.(*ssa.Alloc)
+			_, isIdx := x.Addr.(*ssa.IndexAddr)
+			return !isAlloc && !isIdx
+		case ssa.CallInstruction:
+			return callMayStoreField(x.Common(), f, 0, map[*ssa.Function]bool{})
+		}
+		return false
+	}
+	instrBefore := func(a, b ssa.Instruction) bool { // same block, a before b
+		for _, in := range a.Block().Instrs {
+			if in == a {
+				return true
+			}
+			if in == b {
+				return false
+			}
+		}
+		return false
+	}
+	for _, p := range order {
+		loads := byPath[p]
+		for j := 1; j < len(loads); j++ {
+			l2 := loads[j]
+			for i := j - 1; i >= 0; i-- {
+				l1 := loads[i]
+				dom := l1.u.Block() != l2.u.Block() && l1.u.Block().Dominates(l2.u.Block()) || l1.u.Block() == l2.u.Block() && instrBefore(l1.u, l2.u)
+				if !dom {
+					continue
+				}
+				killed := false
+				for _, b := range fn.Blocks {
+					for _, in := range b.Instrs {
+						if killed || !mayKill(in, l1.f) {
+							continue
+						}
+						isL1 := func(x ssa.Instruction) bool { return x == ssa.Instruction(l1.u) }
+						r1, _, _ := PathAvoiding(fn, l1.u, func(x ssa.Instruction) bool { return x == in }, isL1)
+						if !r1 {
+							continue
+						}
+						r2, _, _ := PathAvoiding(fn, in, func(x ssa.Instruction) bool { return x == ssa.Instruction(l2.u) }, isL1)
+						if r2 {
+							killed = true
+						}
+					}
+				}
+				if !killed {
+					rep := l1.u
+					if r, ok := out[rep]; ok {
+						rep = r
+					}
+					out[l2.u] = rep
+					break
+				}
+			}
+		}
+	}
+	return out
+}
+
+// callMayStoreField: the call may store to field f: it reaches (statically, within the module) a
+// store to f, or it is a call whose target is unknown (interface method, function value) or a
+// function outside the module that is not known to be free of callbacks.
+func callMayStoreField(c *ssa.CallCommon, f *types.Var, depth int, seen map[*ssa.Function]bool) bool {
+	if _, isB := c.Value.(*ssa.Builtin); isB {
+		return false
+	}
+	cal := c.StaticCallee()
+	if cal == nil {
+		return true
+	}
+	if seen[cal] {
+		return false
+	}
+	seen[cal] = true
+	if pk := FuncPkg(cal); pk == nil || !strings.HasPrefix(pk.Path(), ModPath) {
+		// the standard library and dependencies cannot name an unexported field of the module; they
+		// could only reach it through a callback: function-typed or interface-typed arguments
+		if !f.Exported() {
+			for _, a := range c.Args {
+				switch a.Type().Underlying().(type) {
+				case *types.Signature, *types.Interface:
+					return true
+				}
+			}
+			return false
+		}
+		return true
+	}
+	if cal.Blocks == nil || depth > 4 {
+		return true
+	}
+	for _, b := range cal.Blocks {
+		for _, in := range b.Instrs {
+			switch x := in.(type) {
+			case *ssa.Store:
+				if fa, ok := x.Addr.(*ssa.FieldAddr); ok && SameField(FieldOfAddr(fa), f) {
+					return true
+				}
+			case ssa.CallInstruction:
+				if callMayStoreField(x.Common(), f, depth+1, seen) {
+					return true
+				}
+			}
+		}
+	}
+	return false
 }
